@@ -6,7 +6,7 @@
     PARTIAL: IP options / extension headers, RFC 4884 forms, truncated IPv6 quotes and duplicate ACKs with several SACK blocks are
     covered by the correspondence (independent builders) rather than by a byte-level theorem. *)
 From Coq Require Import List ZArith Bool.
-From TR Require Import Lib.Bytes Wire.Decode Wire.Build Drv.Drivers Spec.C01 Proofs.DrvProofs Proofs.ByteComplete Proofs.ByteComplete6 Proofs.ByteCompleteSack Eng.Engine Eng.Timed Proofs.EngComplete Proofs.SerialComplete.
+From TR Require Import Lib.Bytes Wire.Decode Wire.Build Drv.Drivers Spec.C01 Proofs.DrvProofs Proofs.ByteComplete Proofs.ByteComplete6 Proofs.ByteCompleteSack Proofs.SackBlocks Eng.Engine Eng.Timed Proofs.EngComplete Proofs.SerialComplete.
 Import ListNotations.
 Open Scope Z_scope.
 
@@ -160,3 +160,21 @@ Theorem C02_serial_engine_accepts_every_reply_in_its_window p script r :
 Proof. exact (@serial_accepts_every_reply_in_its_window p script r). Qed.
 Print Assumptions C02_serial_engine_accepts_every_reply_in_its_window.
 
+
+(** SACK acknowledgements with ANY number of blocks, in ANY order, with up to seven stray bytes after the last whole block
+    (gopacket only checks 2 <= option length <= remaining): what the driver model credits is the smallest RELATIVE left
+    edge - relative to the run's initial sequence number, modulo 2^32, so blocks that straddle the sequence wrap are
+    compared correctly - and it is attained by one of the blocks *)
+Theorem C02_sack_blocks_minimum init bs stray m :
+  bs <> [] -> (length stray < 8)%nat -> Forall (fun b => 0 <= fst b < 4294967296) bs ->
+  min_sack init [(5, blocks_data bs stray)] = Some m ->
+  (forall b, In b bs -> m <= rel init (fst b)) /\ exists b, In b bs /\ m = rel init (fst b).
+Proof. exact (@sack_option_minimum init bs stray m). Qed.
+Print Assumptions C02_sack_blocks_minimum.
+
+Theorem C02_sack_blocks_order_irrelevant init bs bs' stray stray' :
+  Permutation.Permutation bs bs' -> (length stray < 8)%nat -> (length stray' < 8)%nat ->
+  Forall (fun b => 0 <= fst b < 4294967296) bs ->
+  min_sack init [(5, blocks_data bs stray)] = min_sack init [(5, blocks_data bs' stray')].
+Proof. exact (@sack_blocks_order_irrelevant init bs bs' stray stray'). Qed.
+Print Assumptions C02_sack_blocks_order_irrelevant.
